@@ -43,3 +43,25 @@ Theorem C01_walk_genuine :
     exists r, In (r, i) rs /\ map fst ps = param_names r /\ fits chk r p (map snd ps).
 Proof. intros chk rs p i ps. apply walk_sound. Qed.
 Print Assumptions C01_walk_genuine.
+
+(* ---- for every history of operations on the model router ---- *)
+From WF Require Import Model.Router Proofs.ReachP.
+
+(* every router reachable from Router::new by any sequence of insert / delete / constraint calls
+   (successful or failing) satisfies the invariant ... *)
+Theorem C01_every_reachable_router_has_the_invariant :
+  forall builtins (ops : list op), inv_b (r_root (run builtins ops)) = true.
+Proof. exact reachable_inv_b. Qed.
+Print Assumptions C01_every_reachable_router_has_the_invariant.
+
+(* ... hence every match it ever returns is genuine *)
+Theorem C01_reachable_search_genuine :
+  forall builtins (ops : list op) (chk : bytes -> bytes -> bool) (p : bytes) (i : info) (ps : params),
+    rsearch chk (run builtins ops) p = Some (i, ps) ->
+    exists r, In (r, i) (routes_of (r_root (run builtins ops)))
+              /\ map fst ps = param_names r
+              /\ fits chk r p (map snd ps).
+Proof.
+  intros builtins ops chk p i ps H. eapply search_genuine; [apply reachable_inv_b|exact H].
+Qed.
+Print Assumptions C01_reachable_search_genuine.
